@@ -16,7 +16,7 @@ PROP = dict(
         "success_spec",
         "noMissing_counters_witness", "default_flags_on_witness", "groups_file_witness", "prepare_write_failure_witness",
     ],
-    suites=["resubmit"],
+    suites=["resubmit", "system"],
     level_text="Machine-checked Lean theorems about the resubmit-jobs command for all configurations (any number of jobs, "
                "any blocker relation over the listing order incl. backward edges, self loops and cycles), all result sets "
                "(results.json read with dict semantics), all 8 flag combinations, all environment-supplied failure points "
